@@ -124,6 +124,14 @@ func (l *localExecutor) depReaders(ctx context.Context, task *Task) (in []slicei
 			if err != nil {
 				return nil, errors.E(errors.Fatal, "could not make combiner for %v", dep.Task(0).String(), err)
 			}
+			// Reading the combiner back removes its spill directory. Make
+			// sure that it is also removed if we fail, or the user's combine
+			// function panics, before we get there.
+			defer func() {
+				if discardErr := combiner.Discard(); discardErr != nil {
+					log.Debug.Printf("error discarding combiner: %v", discardErr)
+				}
+			}()
 			buf := frame.Make(dep.Task(0), *defaultChunksize, *defaultChunksize)
 			for {
 				var n int
